@@ -376,6 +376,69 @@ def gen_valid_polygon(rng):
     return [shell] + holes, 'starholes' if holes else 'star'
 
 
+
+def gen_scanline_polygon(rng):
+    """valid polygons aimed at InteriorPointArea's case split: the scan line is the mean of the two vertex ordinates that
+    bracket the centre of the Y extent (shell AND hole vertices); a hole (or the shell) has a vertex / a horizontal edge
+    exactly on the line that the SHELL vertices alone would give, at the midpoint of the widest section.
+    returns (rings with integer coordinates, label)"""
+    from fractions import Fraction as Fr
+    W = 4 * rng.randint(2, 12); H = 4 * rng.randint(2, 12)
+    kind = rng.choice(['rect', 'rect', 'hex', 'hex', 'centrevertex'])
+    if kind == 'rect':
+        shell = [(0, 0), (W, 0), (W, H), (0, H)]
+    elif kind == 'hex':          # side vertices below / above the centre: they bracket the centre of the extent
+        yl = rng.randint(1, H // 2 - 1) if H // 2 - 1 >= 1 else 1
+        yh = rng.randint(H // 2 + 1, H - 1)
+        a = rng.randint(1, 6)
+        shell = [(0, 0), (W, 0), (W + a, yl), (W, H), (0, H), (-a, yh)]
+    else:                        # a shell vertex exactly at the centre of the extent (the <= branch)
+        a = rng.randint(1, 6)
+        shell = [(0, 0), (W, 0), (W + a, H // 2), (W, H), (0, H)]
+    ys = sorted({p[1] for p in shell}); cy = Fr(H, 2)
+    lo = max(y for y in ys if y <= cy); hi = min(y for y in ys if y > cy)
+    S = Fr(lo + hi, 2)
+    # section of the convex shell at y = S
+    xs = []
+    for a_, b_ in zip(shell, shell[1:] + shell[:1]):
+        if a_[1] != b_[1] and min(a_[1], b_[1]) <= S <= max(a_[1], b_[1]):
+            xs.append(Fr(a_[0]) + (S - a_[1]) * Fr(b_[0] - a_[0], b_[1] - a_[1]))
+    xl, xr = min(xs), max(xs); mx = (xl + xr) / 2
+    hk = rng.choice(['apex', 'apex', 'topedge', 'topedge', 'nadir', 'bottomedge', 'side', 'offcentre', 'none'])
+    w = Fr(rng.randint(1, 3)); h = Fr(rng.randint(1, 3)); w2 = Fr(rng.randint(1, 3))
+    if hk == 'apex':
+        hole = [(mx - w, S - h), (mx + w2, S - h), (mx, S)]
+    elif hk == 'topedge':
+        hole = [(mx - w, S - h), (mx + w2, S - h), (mx + w2, S), (mx - w, S)]
+    elif hk == 'nadir':
+        hole = [(mx, S), (mx + w2, S + h), (mx - w, S + h)]
+    elif hk == 'bottomedge':
+        hole = [(mx - w, S), (mx + w2, S), (mx + w2, S + h), (mx - w, S + h)]
+    elif hk == 'side':           # a vertex on the line, away from the midpoint
+        hole = [(mx + 1, S - h), (mx + 1 + w, S - h), (mx + 1 + w / 2, S)]
+    elif hk == 'offcentre':      # apex at the midpoint, slightly below the line
+        hole = [(mx - w, S - h - Fr(1, 2)), (mx + w2, S - h - Fr(1, 2)), (mx, S - Fr(1, 2))]
+    else:
+        hole = None
+    rings = [shell]
+    if hole is not None:
+        inside = all(all(orient(a_, b_, q) > 0 for a_, b_ in zip(shell, shell[1:] + shell[:1])) for q in hole)
+        if inside:
+            if rng.random() < 0.5: hole = hole[::-1]
+            k = rng.randrange(len(hole)); hole = hole[k:] + hole[:k]
+            rings.append(hole)
+        else:
+            hk = 'none'
+    den = 1
+    for r in rings:
+        for q in r:
+            for v in q:
+                den = den * Fr(v).denominator // math.gcd(den, Fr(v).denominator)
+    rings = [[(int(Fr(q[0]) * den), int(Fr(q[1]) * den)) for q in r] for r in rings]
+    if rng.random() < 0.5: rings[0] = rings[0][::-1]
+    return [r + [r[0]] for r in rings], 'scan:%s:%s' % (kind, hk)
+
+
 def gen_line(rng, R=50):
     k = rng.choice(['open', 'open', 'closed', 'dups', 'zero', 'palin', 'two'])
     n = rng.randint(2, 7)
